@@ -79,7 +79,8 @@ Got(r) == AbsObs(Ev.post[r])
 Pre(r) == regs[r]
 
 AccOps == {"Add", "Sub", "Mul", "Quo", "FMA", "Set", "SetPrec", "SetInt", "SetInt64", "SetUint64", "SetRat",
-           "SetMantExp", "NewDecimal", "Parse10"}
+           "SetMantExp", "NewDecimal", "Parse10",
+           "Ctx.Add", "Ctx.Sub", "Ctx.Mul", "Ctx.Quo", "Ctx.FMA", "Ctx.Set"}       \* the same operations through package context
 AccPid(w) == IF Ev.op \in AccOps THEN {"C02"} ELSE w.pid
 
 Aliased == /\ "z" \in DOMAIN Ev
